@@ -150,7 +150,7 @@ SearchCases(z) ==
     \cup SearchN("toolbox3d.LineSearch3D", 3, {<<4, 4, 4>>}, {0})
     \cup SearchN("numerical.GridSearch2D", 2, {<<3, 3, 3>>, <<4, 5, 4>>, <<6, 6, 6>>}, {0, 1, 2})
     \cup SearchN("toolbox3d.GridSearch2D", 2, {<<3, 4, 3>>}, {0, 1})
-    \cup SearchN("numerical.GridSearch3D", 3, {<<3, 3, 3>>, <<4, 3, 2>>}, {0, 1})
+    \cup SearchN("numerical.GridSearch3D", 3, {<<3, 3, 3>>, <<4, 3, 2>>, <<4, 4, 4>>, <<2, 2, 2>>}, {0, 1, 2})
     \cup SearchN("toolbox3d.GridSearch3D", 3, {<<3, 2, 3>>}, {0, 1})
 
 ---------------------------------------------------------------------------
